@@ -656,17 +656,54 @@ def split_histories(lines, ops_all):
     return res
 
 
-def run_correspondence(ctx, histories, harness_exe, model_exe=None, label="hist"):
+def run_impl_resilient(harness_exe, histories, timeout=600):
+    """run the harness on a list of histories; if the process dies in history k (a crash is an
+    observation, not a machinery failure), record it and continue with k+1.. in a fresh process.
+    returns (per-history line lists, [(history index, rc)])"""
+    out = [None] * len(histories)
+    crashes = []
+    start = 0
+    while start < len(histories):
+        text = "\n".join("\n".join(h) for h in histories[start:]) + "\n"
+        lines, rc = run_batch(harness_exe, text, timeout)
+        idx = 0
+        k = start
+        while k < len(histories):
+            n = len(histories[k])
+            chunk = lines[idx:idx + n]
+            out[k] = chunk
+            idx += n
+            if len(chunk) < n:
+                break
+            k += 1
+        if k >= len(histories):
+            break
+        crashes.append((k, rc))
+        start = k + 1
+    return [o if o is not None else [] for o in out], crashes
+
+
+def run_correspondence(ctx, histories, harness_exe, model_exe=None, label="hist", workers=8):
+    from concurrent.futures import ThreadPoolExecutor
     model_exe = model_exe or common.lean_exe("drv_hist")
     res = CorrResult()
     res.histories_list = histories
     text = "\n".join("\n".join(h) for h in histories) + "\n"
-    mlines, mrc = run_batch(model_exe, text)
-    ilines, irc = run_batch(harness_exe, text)
+    # the harness keeps freed blocks quarantined, so long runs are split over several processes
+    nchunks = max(1, min(workers, len(histories) // 50))
+    bounds = [len(histories) * i // nchunks for i in range(nchunks + 1)]
+    with ThreadPoolExecutor(max_workers=workers) as ex:
+        fm = ex.submit(run_batch, model_exe, text)
+        futs = [ex.submit(run_impl_resilient, harness_exe, histories[bounds[i]:bounds[i + 1]]) for i in range(nchunks)]
+        mlines, mrc = fm.result()
+        ih = []
+        for i, f in enumerate(futs):
+            lines, crashes = f.result()
+            ih.extend(lines)
+            res.crashes.extend((bounds[i] + k, rc) for k, rc in crashes)
     if mrc != 0:
         raise RuntimeError("model driver failed rc=%s" % mrc)
     mh = split_histories(mlines, histories)
-    ih = split_histories(ilines, histories)
     seen_distinct = set()
     for hi, ops in enumerate(histories):
         res.histories += 1
@@ -683,12 +720,12 @@ def run_correspondence(ctx, histories, harness_exe, model_exe=None, label="hist"
                     res.kinds_seen.add("%s.%s" % (s["kind"], s["ty"]))
                     res.max_owners = max(res.max_owners, owners(iobs[k]["slots"], s["blk"]))
         if len(ops) > 3:
-            key = tuple(o.split()[0] for o in ops)
+            key = tuple(ops)
             if key not in seen_distinct and any(x and x["status"] == "ok" and x["slots"] for x in iobs[1:]):
                 seen_distinct.add(key)
         first = None
         for k in range(len(ops)):
-            a = il[k] if k < len(il) else "<missing: harness output ended>"
+            a = il[k] if k < len(il) else "<missing: harness process died here>"
             b = ml[k] if k < len(ml) else "<missing>"
             if a != b:
                 first = (hi, k, a, b)
@@ -697,9 +734,6 @@ def run_correspondence(ctx, histories, harness_exe, model_exe=None, label="hist"
             res.disagreements.append(first)
         for (k, props, msg) in monitor_history(ops, iobs):
             res.monitor_fails.append((hi, k, props, msg))
-        if irc != 0 and len(il) < len(ops):
-            res.crashes.append((hi, irc))
-            break
     res.nontrivial = len(seen_distinct)
     return res
 
